@@ -56,7 +56,7 @@ def check_hugr(ctx: Ctx, focus: str, h, case, sig0: dict, expected_doc=None, for
         if exact_order and [n["parent"] for n in d1["nodes"]] != [n["parent"] for n in expected_doc["nodes"]]:
             return bad("order-preserving renumbering", [n["parent"] for n in expected_doc["nodes"]], [n["parent"] for n in d1["nodes"]],
                        "Serialize: ascending index order when no node was deleted")
-    if focus == "C02":
+    if focus == "C02" or (focus == "C05" and foreign_doc is None):      # (C05: histories without a model document - what was encoded decodes to the same graph)
         try:
             h2 = Hugr.load_json(text)
             d2 = json.loads(h2.to_json())
